@@ -4,6 +4,7 @@ import (
 	"fmt"
 	"go/constant"
 	"go/token"
+	"hash/fnv"
 	"math"
 	"strings"
 
@@ -265,11 +266,13 @@ func cancellationRule(p *core.Program, r *core.Report, rule string, bits float64
 				}
 			}
 		}
-		perRole := map[string]int{}
 		for _, s := range sites {
 			fv := fe.val(s.v, top)
-			perRole[s.role]++
-			key := fmt.Sprintf("%s/%s#%d", short(fn), strings.ReplaceAll(s.role, " ", "-"), perRole[s.role])
+			// the construct is named by the shape of its expression over parameter positions, so that reordering
+			// statements or renaming locals does not rename it
+			h := fnv.New32a()
+			h.Write([]byte(exprShape(fn, s.v, 0)))
+			key := fmt.Sprintf("%s/%s@%08x", short(fn), strings.ReplaceAll(s.role, " ", "-"), h.Sum32())
 			switch {
 			case !fv.ok:
 				r.OK(rule, key, p.Pos(s.pos), false, "not an expression over the input ordinates the evaluator follows (a quotient, a square root): relative accuracy carried over, not decided here")
@@ -377,4 +380,48 @@ func differencesOfInputsRule(p *core.Program, r *core.Report, rule string, fn *s
 		why = fmt.Sprintf("%d of the %d position differences subtract a computed position (first at %s): the distance is the difference of two numbers of the size of the coordinates", len(bad), n, bad[0])
 	}
 	r.Check(len(bad) == 0, rule, "rdp-distance-kernel", p.Pos(fn.Pos()), true, fmt.Sprintf("%s: %d position differences, all between input ordinates", short(fn), n), why)
+}
+
+// exprShape renders a float expression over parameter positions (p0[1], calls by callee name, constants by value).
+func exprShape(fn *ssa.Function, v ssa.Value, d int) string {
+	if d > 12 {
+		return "..."
+	}
+	v = eng.StripConv(v)
+	switch x := v.(type) {
+	case *ssa.Const:
+		return x.Value.String()
+	case *ssa.Parameter:
+		for i, q := range fn.Params {
+			if q == x {
+				return fmt.Sprintf("p%d", i)
+			}
+		}
+	case *ssa.BinOp:
+		a, b := exprShape(fn, x.X, d+1), exprShape(fn, x.Y, d+1)
+		if (x.Op == token.ADD || x.Op == token.MUL) && b < a {
+			a, b = b, a
+		}
+		return "(" + a + x.Op.String() + b + ")"
+	case *ssa.UnOp:
+		if x.Op == token.MUL {
+			if ia, ok := x.X.(*ssa.IndexAddr); ok {
+				return exprShape(fn, ia.X, d+1) + "[" + exprShape(fn, ia.Index, d+1) + "]"
+			}
+		}
+		return x.Op.String() + exprShape(fn, x.X, d+1)
+	case *ssa.Call:
+		name := "call"
+		if g := x.Call.StaticCallee(); g != nil {
+			name = g.Name()
+		}
+		out := name + "("
+		for _, a := range x.Call.Args {
+			out += exprShape(fn, a, d+1) + ","
+		}
+		return out + ")"
+	case *ssa.Phi:
+		return "phi"
+	}
+	return "?"
 }
